@@ -37,6 +37,14 @@ def main():
         from lib import translate
         translate.run(ctx)
         rc = mod.run(ctx)
+        if rc == 99:
+            print("[%s] a proof obligation or correspondence no longer checks; searching for a failing input with the enlarged budget ..." % prop)
+            ctx2 = C.Ctx(prop, tier, seed)
+            ctx2.escalated = True
+            ctx2.quick = False
+            ctx2.t0 = ctx.t0
+            ctx2.notes.append("escalated search: thorough budget used after a broken obligation/correspondence in the quick run")
+            rc = mod.run(ctx2)
     except C.BuildError as ex:
         # the harness no longer compiles against /repo: the tie is broken
         ctx.violation("harness does not build against the current sources: " + str(ex)[:1500],
